@@ -5,4 +5,10 @@ cd "$(dirname "$0")/.."
 export CARGO_NET_OFFLINE=true
 mkdir -p target work evidence replay
 (cd symex && CARGO_TARGET_DIR=/verif/target/symex cargo build --release --offline)
+# engine K: generate the cell harnesses from the real tables and compile the harness crate once (codegen only)
+./target/symex/release/symex valtable --out work/tables.json
+python3 kani/gen_cells.py work/tables.json kani/src >/dev/null
+(cd kani && cargo kani --target-dir /verif/target/kani -Z stubbing --only-codegen >/dev/null 2>&1 || echo "warning: kani codegen failed (checks will report it)")
+# engine M: compile the dependencies for the nightly MIR dump once
+(cd /repo && CARGO_TARGET_DIR=/verif/target/mir cargo +nightly rustc --offline --lib -- -Zunpretty=mir -C debug-assertions=off >/dev/null 2>&1 || true)
 echo setup ok
